@@ -75,6 +75,10 @@ class Block:
         self.bare = False
         self.prefix = ''       # text put before the item (e.g. attributes for verus)
         self.optional = False  # `//@ extract?`: skip the block when the item is absent
+        self.diverge = False   # R2b instead of R2 for the panics of this block
+        self.eta = []          # constructor paths to eta-expand where passed as a function value (R9)
+        self.eta_found = {}
+        self.head_all = None   # head text for every fn of the block (a fn's own `head` is put after it)
 
 
 def _loop_key(arg):
@@ -189,6 +193,8 @@ class Assembler:
                         blk.members.append(text)
                     elif kind == 'prefix':
                         blk.prefix = text
+                    elif kind == 'head-all':
+                        blk.head_all = text
                     elif tgt is None:
                         raise UnitSyntax('line %d: %s outside a fn target' % (blk.vu_line, kind))
                     elif kind == 'spec':
@@ -233,6 +239,8 @@ class Assembler:
                             cur_field = ('head',)
                         elif d == 'member':
                             cur_field = ('member',)
+                        elif d == 'head-all':
+                            cur_field = ('head-all',)
                         elif d == 'prefix':
                             cur_field = ('prefix',)
                         elif d.startswith('loop? ') or d.startswith('loop '):
@@ -276,6 +284,16 @@ class Assembler:
                             blk.cur.params_to_let = True
                         elif d == 'no-canary':
                             blk.cur.canary = False
+                        elif d.startswith('eta '):
+                            # R8: a tuple-struct/variant constructor passed as a function value, `f(Path::Ctor)`, is
+                            # eta-expanded to `f(|eta_x| Path::Ctor(eta_x))` (Verus: "using a datatype constructor as a
+                            # function value" is unsupported); same meaning
+                            blk.eta.append(d[4:].strip())
+                        elif d == 'panics-diverge':
+                            # R2b: partial-correctness reading of panic!/unreachable!/..: the macro call is replaced
+                            # by a call of the unit's own `rbv_diverge()` (declared external_body, `ensures false`:
+                            # a panic does not return) instead of `unreached()` (`requires false`)
+                            blk.diverge = True
                         else:
                             raise UnitSyntax('line %d: unknown directive %r' % (i + 1, d))
                     else:
@@ -288,6 +306,19 @@ class Assembler:
                     raise UnitSyntax('extract block at line %d not closed' % blk.vu_line)
                 i += 1
                 self._emit_block(blk, canary)
+                continue
+            if s.startswith('//@ require-text '):
+                # guard for declarations that cannot be extracted (macro-generated items): the given text must
+                # still be present (whitespace-insensitively) in the file, otherwise the unit is anchor-lost
+                m = re.match(r'//@ require-text\s+(\S+)\s*::\s*(.*)$', s)
+                if not m:
+                    raise UnitSyntax('line %d: bad require-text' % (i + 1))
+                have = ' '.join(self.source(m.group(1)).text.split())
+                want = ' '.join(m.group(2).split())
+                if want not in have:
+                    raise AnchorLost('required text %r no longer in %s' % (want, m.group(1)))
+                self.rewrites.append('G %s: guard text present: %s' % (m.group(1), want))
+                i += 1
                 continue
             if s.startswith('//@'):
                 raise UnitSyntax('line %d: directive %r outside extract block' % (i + 1, s))
@@ -378,6 +409,8 @@ class Assembler:
             if tgt and tgt.spec:
                 edits.append((st[a].start, st[a].start, '\n' + tgt.spec + '\n'))
             head = ''
+            if blk.head_all and not (tgt and tgt.omit):
+                head += '\n' + blk.head_all + '\n'
             if tgt and tgt.head:
                 head += '\n' + tgt.head + '\n'
             if canary and (tgt is None or tgt.canary):
@@ -402,6 +435,20 @@ class Assembler:
                     # find the '{' opening the loop body
                     j = k + 1
                     depth = 0
+                    if t.text == 'for':
+                        # the pattern of a `for` may contain braces (`for Positioned { element, pos } in v`): the body
+                        # opens at the first '{' AFTER the `in` keyword at nesting depth 0
+                        d3 = 0
+                        q = k + 1
+                        while q < b:
+                            if st[q].kind == 'punct' and st[q].text in '([{':
+                                d3 += 1
+                            elif st[q].kind == 'punct' and st[q].text in ')]}':
+                                d3 -= 1
+                            elif d3 == 0 and st[q].kind == 'ident' and st[q].text == 'in':
+                                j = q + 1
+                                break
+                            q += 1
                     while True:
                         tt = st[j]
                         if tt.kind == 'punct':
@@ -560,6 +607,10 @@ class Assembler:
                             # the closure's precondition `false` (the caller must then prove it is never called)
                             edits.append((t.start, st[kc].end, 'requires false { vstd::pervasive::unreached() }'))
                             self.rewrites.append('R2 %s:%d || %s! -> || requires false { unreached() }' % (blk.relpath, src.line_of(t.start), t.text))
+                        elif blk.diverge:
+                            stmt_pos = kc + 1 < len(st) and st[kc + 1].text == ';'
+                            edits.append((t.start, st[kc].end, 'rbv_diverge::<()>()' if stmt_pos else 'rbv_diverge()'))
+                            self.rewrites.append('R2b %s:%d %s! -> rbv_diverge() (does not return)' % (blk.relpath, src.line_of(t.start), t.text))
                         else:
                             # in statement position (`panic!(..);`) the type parameter cannot be inferred: say `()`
                             stmt_pos = kc + 1 < len(st) and st[kc + 1].text == ';'
@@ -569,6 +620,15 @@ class Assembler:
                         k = kc + 1
                         continue
                 k += 1
+            for ctor in blk.eta:
+                found = 0
+                for mo in re.finditer(r'\(\s*(%s)\s*\)' % re.escape(ctor), text[st[a].end:st[b].start]):
+                    s0 = st[a].end + mo.start(1)
+                    e0 = st[a].end + mo.end(1)
+                    edits.append((s0, e0, '|eta_x| %s(eta_x)' % ctor))
+                    self.rewrites.append('R9 %s:%d constructor %s passed as a function value eta-expanded' % (blk.relpath, src.line_of(s0), ctor))
+                    found += 1
+                blk.eta_found[ctor] = blk.eta_found.get(ctor, 0) + found
             if tgt:
                 for n in tgt.closures:
                     if n not in seen_closures:
@@ -612,7 +672,8 @@ class Assembler:
             strip_attrs(item)
             fn_edits(item, blk.fns.get(item.name))
             self.fn_origin[item.name] = (blk.relpath, self._path(parents, item))
-        elif item.kind in ('impl', 'trait'):
+        elif item.kind in ('impl', 'trait', 'mod'):
+            # (a `mod` is treated like an impl: its fns can be addressed with `//@ fn NAME`)
             strip_attrs(item)
             for ch in src.children(item):
                 if ch.kind == 'fn':
@@ -646,6 +707,9 @@ class Assembler:
                             k = kc + 1
                         else:
                             k += 1
+        for ctor in blk.eta:
+            if not blk.eta_found.get(ctor):
+                raise AnchorLost('no `(%s)` argument in %s of %s' % (ctor, item.name or item.kind, blk.relpath))
         # stable sort on the offsets only: edits at the same offset keep their insertion order
         # (ret-naming ')' before the spec text of a body-less trait method)
         edits.sort(key=lambda e: (e[0], e[1]))
